@@ -25,7 +25,7 @@ import (
 
 var c20Times = []string{"<0:00", "<23:59", "<24:00", "0:00", "12:00am", "12:30am", "1:00am", "11:59", "11:59am", "12:00pm", "12:00", "12:30pm", "12:59pm", "1:00pm", "13:00", "11:59pm", "23:59", "24:00", "0:00>", "12:15am>", "12:45pm>", "23:59>"}
 
-var c20Alphabet = []string{"'", "\"", "\\", "\x01", "\x1f", "\x7f", "<", ">", "&", "é", "中", " ", "\xff", "#a", " ", "\\u0041", "\xe4\xb8", "\\u003c"}
+var c20Alphabet = []string{"'", "\"", "\\", "\x01", "\x1f", "\x7f", "<", ">", "&", "é", "中", " ", "\xff", "#a", " ", "\\u0041", "\xe4\xb8", "\\u003c", "="}
 
 func c20Families(tier fw.Tier) []docFamily {
 	return cachedFamilies("c20/"+string(tier), func() []docFamily {
@@ -39,7 +39,7 @@ func c20Families(tier fw.Tier) []docFamily {
 		// every ordered pair of boundary time literals (24 h and 12 h, shifted, the 24:00 spellings, the noon and midnight hours)
 		fs = append(fs, docFamily{"times", len(c20Times) * len(c20Times), func(i int) (string, []sm.Record, bool) {
 			a, b := c20Times[i/len(c20Times)], c20Times[i%len(c20Times)]
-			return "2021-05-05\n    " + a + " - " + b + " range\n\n2021-05-06 (1h!)\n    " + b + "-? open\n", nil, false
+			return "2021-05-05\n    " + a + " - " + b + " range\n\n0987/06/05 (1h!)\n    " + b + "-? open\n", nil, false
 		}})
 		// --now: the F3 documents of C02 (two records dated relative to the clock, open ranges at boundary times); the case index selects the clock
 		fs = append(fs, docFamily{"now", c02NowCount(), func(i int) (string, []sm.Record, bool) {
